@@ -1,5 +1,6 @@
-(* Dec64P.v — proofs about Dec64.v: what lyplg_type_parse_dec64 accepts and which number it yields,
-   the sign-only defect, the dependence on the byte after the value, canonical form. *)
+(* Dec64P.v — proofs about Dec64.v: what lyplg_type_parse_dec64 (as fixed by /repo commits f731599 and
+   f933623) accepts and which number it yields: exactly the RFC 7950 lexical space between optional
+   white space; canonical form. *)
 From LY Require Import Base TypesMisc TypesMiscP IntLex IntLexP Dec64.
 From Coq Require Import ZifyBool ZifyNat ZifyN.
 Local Open Scope N_scope.
@@ -146,11 +147,11 @@ Proof. unfold all_digit. induction k as [|k IH]; cbn [repeat forallb]; [reflexiv
    value = pre rest with pre = sign digits and rest starting with a non-digit; what the index
    arithmetic of dec64_scan / dec64_finish amounts to *)
 
-Definition dec64_tail (fd : nat) (pre rest : bytes) (nxt : N) : res Z :=
+Definition dec64_tail (fd : nat) (pre rest : bytes) : res Z :=
   match rest with
   | [] => plg_parse_int (pre ++ repeat 48 fd) I64MIN_Z I64MAX_Z
   | c :: r2 =>
-      if (c =? 46) && is_digit (hd nxt r2) then
+      if (c =? 46) && is_digit (hd 0 r2) then
         let fpa := fst (span_digits r2) in
         let r3 := snd (span_digits r2) in
         let fp := strip_tz fpa in
@@ -164,31 +165,33 @@ Definition dec64_tail (fd : nat) (pre rest : bytes) (nxt : N) : res Z :=
   end.
 
 Lemma dec_head sg ip rest :
-  is_sign sg -> all_digit ip -> (ip <> [] \/ sg <> []) ->
+  is_sign sg -> all_digit ip -> ip <> [] ->
   exists c0 r0, (sg ++ ip) ++ rest = c0 :: r0 /\ is_space c0 = false /\
     (negb (is_digit c0) && negb (c0 =? 45) && negb (c0 =? 43)) = false /\
-    (if (c0 =? 45) || (c0 =? 43) then 1%nat else 0%nat) = length sg.
+    (if (c0 =? 45) || (c0 =? 43) then 1%nat else 0%nat) = length sg /\
+    (((c0 =? 45) || (c0 =? 43)) &&
+     ((length sg =? length (c0 :: r0))%nat || negb (is_digit (rd (c0 :: r0) (length sg))))) = false.
 Proof.
   intros Hsg Hip Hne.
+  destruct ip as [|d ip']; [congruence|].
+  unfold all_digit in Hip. cbn [forallb] in Hip. apply andb_true_iff in Hip. destruct Hip as [Hd _].
   destruct Hsg as [-> | [-> | ->]].
-  - destruct ip as [|d ip']; [destruct Hne; congruence|].
-    unfold all_digit in Hip. cbn [forallb] in Hip. apply andb_true_iff in Hip. destruct Hip as [Hd _].
-    exists d, (ip' ++ rest). cbn [app length]. pose proof (digit_not_space d Hd) as Hns.
-    split; [reflexivity|]. split; [exact Hns|]. rewrite Hd. split; [reflexivity|].
-    unfold is_digit in Hd. destruct (d =? 45) eqn:E1; [lia|]. destruct (d =? 43) eqn:E2; [lia|]. reflexivity.
-  - exists 43, (ip ++ rest). cbn [app length]. repeat split; reflexivity.
-  - exists 45, (ip ++ rest). cbn [app length]. repeat split; reflexivity.
+  - exists d, (ip' ++ rest). cbn [app length]. pose proof (digit_not_space d Hd) as Hns.
+    split; [reflexivity|]. split; [exact Hns|]. rewrite Hd.
+    unfold is_digit in Hd. destruct (d =? 45) eqn:E1; [lia|]. destruct (d =? 43) eqn:E2; [lia|].
+    repeat split; reflexivity.
+  - exists 43, (d :: ip' ++ rest). unfold rd. cbn [app length nth Nat.eqb]. rewrite Hd. repeat split; reflexivity.
+  - exists 45, (d :: ip' ++ rest). unfold rd. cbn [app length nth Nat.eqb]. rewrite Hd. repeat split; reflexivity.
 Qed.
 
-
-Lemma scan_eval sg ip rest nxt :
+Lemma scan_eval sg ip rest :
   all_digit ip -> head_nondigit rest ->
-  dec64_scan ((sg ++ ip) ++ rest) nxt (length sg) =
+  dec64_scan ((sg ++ ip) ++ rest) (length sg) =
   let len2 := length (sg ++ ip) in
   match rest with
   | [] => (len2, (len2 + 1)%nat, 0%nat)
   | c :: r2 =>
-      if (c =? 46) && is_digit (hd nxt r2)
+      if (c =? 46) && is_digit (hd 0 r2)
       then let fpa := fst (span_digits r2) in
            (len2, (len2 + 1 + length fpa - tzc fpa 0)%nat, tzc fpa 0)
       else (0%nat, len2, 0%nat)
@@ -198,25 +201,30 @@ Proof.
   assert (Hl2 : (length sg + count_digits (skipn (length sg) ((sg ++ ip) ++ rest)))%nat = length (sg ++ ip)).
   { rewrite <- (app_assoc sg ip rest), skipn_app_len, (count_digits_app ip rest Hip Hrest), app_length. reflexivity. }
   rewrite !Hl2. clear Hl2.
-  set (pre := sg ++ ip). 
-  unfold rd. rewrite <- (app_assoc pre rest [nxt]). rewrite (nth_app_len pre (rest ++ [nxt]) 1 0).
-  rewrite <- (Nat.add_0_r (length pre)) at 2. rewrite (nth_app_len pre rest 0 0).
-  rewrite app_length.
+  set (pre := sg ++ ip).
+  assert (H1 : rd (pre ++ rest) (length pre + 1) = nth 1 rest 0) by (unfold rd; apply nth_app_len).
+  assert (H0 : rd (pre ++ rest) (length pre) = nth 0 rest 0).
+  { unfold rd. rewrite <- (Nat.add_0_r (length pre)) at 1. apply nth_app_len. }
+  rewrite H0, H1, app_length. clear H0 H1.
   destruct rest as [|c r2].
   - cbn [length]. replace (length pre <? length pre + 0)%nat with false by (symmetry; apply Nat.ltb_ge; lia).
     cbn [andb]. rewrite skipn_all2 by (rewrite app_length; cbn [length]; lia).
     cbn [scan_frac]. f_equal. f_equal. lia.
   - cbn [length]. replace (length pre <? length pre + S (length r2))%nat with true by (symmetry; apply Nat.ltb_lt; lia).
-    cbn [andb nth app].
-    replace (nth 0 (r2 ++ [nxt]) 0) with (hd nxt r2) by (destruct r2; reflexivity).
-    destruct ((c =? 46) && is_digit (hd nxt r2)) eqn:Hdot.
-    + apply andb_true_iff in Hdot. destruct Hdot as [H46 Hdg]. rewrite H46, Hdg. cbn [negb orb].
+    cbn [andb nth].
+    replace (nth 0 r2 0) with (hd 0 r2) by (destruct r2; reflexivity).
+    destruct ((c =? 46) && is_digit (hd 0 r2)) eqn:Hdot.
+    + apply andb_true_iff in Hdot. destruct Hdot as [H46 Hdg].
+      (* a digit follows the period, so the period is not the last byte of the value *)
+      assert (Hnl : (length pre + 1 =? length pre + S (length r2))%nat = false).
+      { destruct r2 as [|d r2']; [vm_compute in Hdg; discriminate|]. cbn [length]. apply Nat.eqb_neq. lia. }
+      rewrite H46, Hnl, Hdg. cbn [negb orb].
       change (c :: r2) with ([c] ++ r2). rewrite app_assoc.
       rewrite (skipn_app_len' (pre ++ [c]) r2) by (rewrite app_length; cbn [length]; lia).
       pose proof (span_digits_split r2) as [Hr2 [Hd Hh]].
       rewrite Hr2 at 1. rewrite (scan_frac_app _ _ 0 0 Hd Hh). cbn [Nat.add]. reflexivity.
     + apply andb_false_iff in Hdot. destruct Hdot as [H|H]; rewrite H; cbn [negb orb]; [reflexivity|].
-      rewrite orb_true_r. reflexivity.
+      rewrite !orb_true_r. reflexivity.
 Qed.
 
 (* finishing when no fraction was recognised *)
@@ -266,24 +274,24 @@ Proof.
     + apply Nat.ltb_ge in Hlt. destruct r3; [|cbn [length] in Hlt; lia]. reflexivity.
 Qed.
 
-Lemma dec64_parse_eval fd ws1 sg ip rest nxt :
-  all_space ws1 -> is_sign sg -> all_digit ip -> (ip <> [] \/ sg <> []) -> head_nondigit rest ->
-  dec64_parse fd (ws1 ++ (sg ++ ip) ++ rest) nxt = dec64_tail fd (sg ++ ip) rest nxt.
+Lemma dec64_parse_eval fd ws1 sg ip rest :
+  all_space ws1 -> is_sign sg -> all_digit ip -> ip <> [] -> head_nondigit rest ->
+  dec64_parse fd (ws1 ++ (sg ++ ip) ++ rest) = dec64_tail fd (sg ++ ip) rest.
 Proof.
   intros Hws1 Hsg Hip Hne Hrest.
   unfold dec64_parse. cbv zeta. rewrite skip_space_app_ws by exact Hws1.
-  destruct (dec_head sg ip rest Hsg Hip Hne) as [c0 [r0 [Hc [Hsp [Hchk Hlen1]]]]].
+  destruct (dec_head sg ip rest Hsg Hip Hne) as [c0 [r0 [Hc [Hsp [Hchk [Hlen1 Hsign]]]]]].
   rewrite Hc. rewrite (skip_space_id c0 r0 Hsp). cbv beta iota.
-  rewrite Hchk, Hlen1. rewrite <- Hc.
+  rewrite Hchk, Hlen1, Hsign. rewrite <- Hc.
   assert (Hpre : (0 < length (sg ++ ip))%nat).
-  { destruct (sg ++ ip) eqn:E; [|cbn; lia]. apply app_eq_nil in E. destruct E; destruct Hne; congruence. }
-  rewrite (scan_eval sg ip rest nxt Hip Hrest). cbv zeta.
+  { destruct (sg ++ ip) eqn:E; [|cbn; lia]. apply app_eq_nil in E. destruct E; congruence. }
+  rewrite (scan_eval sg ip rest Hip Hrest). cbv zeta.
   set (pre := sg ++ ip) in *.
   destruct rest as [|c r2].
   - replace (length pre + 1)%nat with (length pre + 1 + length (@nil N))%nat by (cbn [length]; lia).
     rewrite (finish_frac fd pre [] [] 0 []) by (auto 10).
     cbn [length Nat.ltb Nat.leb count_space Nat.eqb app dec64_tail]. rewrite Nat.sub_0_r. reflexivity.
-  - cbn [dec64_tail]. destruct ((c =? 46) && is_digit (hd nxt r2)) eqn:Hdot.
+  - cbn [dec64_tail]. destruct ((c =? 46) && is_digit (hd 0 r2)) eqn:Hdot.
     + cbv zeta.
       pose proof (span_digits_split r2) as [Hr2 [Hd Hh]].
       set (fpa := fst (span_digits r2)) in *. set (r3 := snd (span_digits r2)) in *.
@@ -295,6 +303,22 @@ Proof.
       rewrite (finish_frac fd pre (c :: r2) fp (tzc fpa 0) r3 Hpre); [reflexivity|].
       right. exists c. f_equal. rewrite app_assoc, <- Hfpa. exact Hr2.
     + apply finish_nofrac.
+Qed.
+
+(* a sign that is not followed by a digit: LY_EVALID (the test added by commit f933623) *)
+Lemma dec64_parse_sign_nodigit fd ws1 sg rest :
+  all_space ws1 -> is_sign sg -> sg <> [] -> head_nondigit rest ->
+  dec64_parse fd (ws1 ++ sg ++ rest) = Err E_VALID.
+Proof.
+  intros Hws1 Hsg Hne Hrest.
+  unfold dec64_parse. cbv zeta. rewrite skip_space_app_ws by exact Hws1.
+  destruct Hsg as [-> | [-> | ->]]; [congruence| |]; cbn [app];
+    rewrite skip_space_id by reflexivity; cbv beta iota;
+    (destruct rest as [|c r]; [reflexivity|]); cbn [head_nondigit] in Hrest.
+  - change (is_digit 43) with false. change (43 =? 45) with false. change (43 =? 43) with true.
+    cbn [negb andb orb]. unfold rd. cbn [nth length Nat.eqb]. rewrite Hrest. reflexivity.
+  - change (is_digit 45) with false. change (45 =? 45) with true.
+    cbn [negb andb orb]. unfold rd. cbn [nth length Nat.eqb]. rewrite Hrest. reflexivity.
 Qed.
 
 (* ---------- arithmetic of the scaling ---------- *)
@@ -380,10 +404,10 @@ Qed.
 Lemma space_not_dot w : is_space w = true -> (w =? 46) = false.
 Proof. unfold is_space. lia. Qed.
 
-(* ---------- completeness: every value of the stated language is stored, whatever follows it ---------- *)
-Lemma dec64_parse_complete fd s n nxt :
-  (1 <= fd)%nat -> ly_dec64_lex fd s n -> (I64MIN_Z <= n <= I64MAX_Z)%Z ->
-  dec64_parse fd s nxt = Ok n.
+(* ---------- completeness: every value of the RFC language (between white space) is stored ---------- *)
+Lemma dec64_parse_complete fd s n :
+  (1 <= fd)%nat -> rfc_ws_dec64_lex fd s n -> (I64MIN_Z <= n <= I64MAX_Z)%Z ->
+  dec64_parse fd s = Ok n.
 Proof.
   intros Hfd Hlex Hb.
   destruct Hlex as [ws1 core ws2 n Hws1 Hws2 Hcore].
@@ -397,7 +421,7 @@ Proof.
     assert (Hh : head_nondigit ws2).
     { destruct ws2 as [|w ws2']; cbn [head_nondigit]; [exact I|].
       unfold all_space in Hws2. cbn [forallb] in Hws2. apply andb_true_iff in Hws2. apply space_not_digit. tauto. }
-    rewrite (dec64_parse_eval fd ws1 sg ip ws2 nxt Hws1 Hsg Hip Hne Hh).
+    rewrite (dec64_parse_eval fd ws1 sg ip ws2 Hws1 Hsg Hip Hne Hh).
     assert (Hp : plg_parse_int ((sg ++ ip) ++ repeat 48 fd) I64MIN_Z I64MAX_Z = Ok n).
     { change (repeat 48 fd) with ([] ++ repeat 48 fd).
       apply valcopy_parse; [exact Hsg|exact Hip|reflexivity| |].
@@ -410,7 +434,7 @@ Proof.
     apply count_space_all in Hws2. rewrite Hws2. exact Hp.
   - (* period and digits *)
     assert (Hh : head_nondigit ((46 :: fpa) ++ ws2)) by reflexivity.
-    rewrite (dec64_parse_eval fd ws1 sg ip _ nxt Hws1 Hsg Hip Hne Hh).
+    rewrite (dec64_parse_eval fd ws1 sg ip _ Hws1 Hsg Hip Hne Hh).
     cbn [app dec64_tail]. rewrite N.eqb_refl.
     destruct fpa as [|d fpa']; [congruence|].
     assert (Hd : is_digit d = true).
@@ -443,12 +467,12 @@ Proof.
     + split; [|exact Hb]. apply (scale_iff _ _ _ fd (length fp) tz Hfit). exact Hden.
 Qed.
 
-(* ---------- soundness: what is stored belongs to the stated language (byte after the value not a digit) ---------- *)
-Lemma dec64_parse_sound fd s n nxt :
-  (1 <= fd)%nat -> is_digit nxt = false ->
-  dec64_parse fd s nxt = Ok n -> ly_dec64_lex fd s n /\ (I64MIN_Z <= n <= I64MAX_Z)%Z.
+(* ---------- soundness: what is stored belongs to the RFC language (between white space) ---------- *)
+Lemma dec64_parse_sound fd s n :
+  (1 <= fd)%nat ->
+  dec64_parse fd s = Ok n -> rfc_ws_dec64_lex fd s n /\ (I64MIN_Z <= n <= I64MAX_Z)%Z.
 Proof.
-  intros Hfd Hnxt H.
+  intros Hfd H.
   destruct (skip_space_split s) as [ws1 [Hs Hws1]].
   assert (Hval : exists c0 r0, skip_space s = c0 :: r0 /\
                  (negb (is_digit c0) && negb (c0 =? 45) && negb (c0 =? 43)) = false).
@@ -456,30 +480,36 @@ Proof.
     exists c0, r0. split; [reflexivity|].
     destruct (negb (is_digit c0) && negb (c0 =? 45) && negb (c0 =? 43)); [discriminate|reflexivity]. }
   destruct Hval as [c0 [r0 [Hsk Hchk]]].
-  destruct (dec_decomp c0 r0 Hchk) as [sg [ip [rest [Hv [Hsg [Hip [Hne Hrest]]]]]]].
+  destruct (dec_decomp c0 r0 Hchk) as [sg [ip [rest [Hv [Hsg [Hip [Hne0 Hrest]]]]]]].
   rewrite Hsk, Hv in Hs. rewrite Hs in H |- *.
-  rewrite (dec64_parse_eval fd ws1 sg ip rest nxt Hws1 Hsg Hip Hne Hrest) in H.
+  (* a sign must be followed by a digit: with no digit the value is rejected *)
+  assert (Hne : ip <> []).
+  { intro Hnil. subst ip. destruct Hne0 as [Hne0|Hne0]; [congruence|].
+    rewrite app_nil_r in H. rewrite (dec64_parse_sign_nodigit fd ws1 sg rest Hws1 Hsg Hne0 Hrest) in H.
+    discriminate H. }
+  clear Hne0.
+  rewrite (dec64_parse_eval fd ws1 sg ip rest Hws1 Hsg Hip Hne Hrest) in H.
   assert (Hnofrac : forall ws2, all_space ws2 ->
             plg_parse_int ((sg ++ ip) ++ repeat 48 fd) I64MIN_Z I64MAX_Z = Ok n ->
-            ly_dec64_lex fd (ws1 ++ (sg ++ ip) ++ ws2) n /\ (I64MIN_Z <= n <= I64MAX_Z)%Z).
+            rfc_ws_dec64_lex fd (ws1 ++ (sg ++ ip) ++ ws2) n /\ (I64MIN_Z <= n <= I64MAX_Z)%Z).
   { intros ws2 Hws2 Hp.
     change (repeat 48 fd) with ([] ++ repeat 48 fd) in Hp.
     apply valcopy_parse in Hp; [|exact Hsg|exact Hip|reflexivity|].
     - destruct Hp as [Hn Hb]. split; [|exact Hb].
       replace ((sg ++ ip) ++ ws2) with ((sg ++ ip ++ []) ++ ws2) by (rewrite app_nil_r; reflexivity).
       apply WsAround; [exact Hws1|exact Hws2|].
-      apply LyDecCore with (fp := []); [exact Hsg|exact Hne|exact Hip|apply FracNone|].
+      apply RfcDec with (fp := []); [exact Hsg|exact Hne|exact Hip|apply FracNone|].
       unfold dec64_denotes. cbn [length Z.of_nat Z.pow]. rewrite app_nil_r in Hn |- *. lia.
     - destruct fd; [lia|]. cbn [repeat app]. intro E. apply app_eq_nil in E. destruct E; discriminate. }
   destruct rest as [|c r2]; cbn [dec64_tail] in H.
   - apply (Hnofrac [] eq_refl H).
-  - destruct ((c =? 46) && is_digit (hd nxt r2)) eqn:Hdot.
+  - destruct ((c =? 46) && is_digit (hd 0 r2)) eqn:Hdot.
     + cbv zeta in H. apply andb_true_iff in Hdot. destruct Hdot as [H46 Hdg].
       assert (Hc : c = 46) by lia. subst c.
       pose proof (span_digits_split r2) as [Hr2 [Hd Hh]].
       set (fpa := fst (span_digits r2)) in *. set (r3 := snd (span_digits r2)) in *.
       assert (Hfne : fpa <> []).
-      { destruct r2 as [|d r2']; cbn [hd] in Hdg; [congruence|].
+      { destruct r2 as [|d r2']; cbn [hd] in Hdg; [vm_compute in Hdg; discriminate Hdg|].
         subst fpa. cbn [span_digits]. rewrite Hdg. destruct (span_digits r2'). cbn [fst]. discriminate. }
       destruct (frac_norm fpa) as [fp [Hfpa [Hstrip Hshape]]].
       rewrite Hstrip in H. set (tz := tzc fpa 0) in *.
@@ -494,7 +524,7 @@ Proof.
         replace ((sg ++ ip) ++ 46 :: fpa ++ r3) with ((sg ++ ip ++ 46 :: fpa) ++ r3)
           by (rewrite <- !app_assoc; reflexivity).
         apply WsAround; [exact Hws1|exact Hsp|].
-        apply LyDecCore with (fp := fpa); [exact Hsg|exact Hne|exact Hip|apply FracSome; [exact Hfne|exact Hd]|].
+        apply RfcDec with (fp := fpa); [exact Hsg|exact Hne|exact Hip|apply FracSome; [exact Hfne|exact Hd]|].
         unfold dec64_denotes.
         assert (Hlen : length fpa = (length fp + tz)%nat) by (rewrite Hfpa at 1; rewrite app_length, repeat_length; reflexivity).
         rewrite Hfpa at 1. rewrite (app_assoc ip fp), ZofN_dec_zeros, Hlen.
@@ -602,32 +632,26 @@ Proof.
     + apply FracSome; assumption.
 Qed.
 
-Lemma rfc_core_is_ly_core fd c n : rfc_dec64_lex fd c n -> ly_dec64_core fd c n.
-Proof. intros [sg ip ft fp m Hsg Hne Hip Hft Hden]. apply LyDecCore with (fp := fp); auto. Qed.
-
-Lemma rfc_ws_is_ly_lex fd s n : rfc_ws_dec64_lex fd s n -> ly_dec64_lex fd s n.
-Proof. intros [ws1 core ws2 m H1 H2 Hc]. apply WsAround; auto. apply rfc_core_is_ly_core. exact Hc. Qed.
-
 Lemma ws_around_id (P : bytes -> Z -> Prop) c n : P c n -> ws_around P c n.
 Proof.
   intro H. replace c with ([] ++ c ++ []) by (cbn [app]; apply app_nil_r).
   apply WsAround; [reflexivity|reflexivity|exact H].
 Qed.
 
-(* storing the canonical string gives the value back, whatever byte follows it *)
-Theorem dec64_canon_parse fd n nxt :
+(* storing the canonical string gives the value back *)
+Theorem dec64_canon_parse fd n :
   (1 <= fd)%nat -> (I64MIN_Z <= n <= I64MAX_Z)%Z ->
-  dec64_parse fd (dec64_canon fd n) nxt = Ok n.
+  dec64_parse fd (dec64_canon fd n) = Ok n.
 Proof.
   intros Hfd Hb. apply dec64_parse_complete; [exact Hfd| |exact Hb].
-  apply rfc_ws_is_ly_lex. apply ws_around_id. apply dec64_canon_lex. exact Hfd.
+  apply ws_around_id. apply dec64_canon_lex. exact Hfd.
 Qed.
 
-Theorem dec64_canon_store fd parts n nxt :
+Theorem dec64_canon_store fd parts n :
   (1 <= fd)%nat -> (I64MIN_Z <= n <= I64MAX_Z)%Z -> validate_range parts n = true ->
-  dec64_store fd parts (dec64_canon fd n) nxt = Ok n.
+  dec64_store fd parts (dec64_canon fd n) = Ok n.
 Proof.
-  intros Hfd Hb Hr. unfold dec64_store. rewrite (dec64_canon_parse fd n nxt Hfd Hb), Hr. reflexivity.
+  intros Hfd Hb Hr. unfold dec64_store. rewrite (dec64_canon_parse fd n Hfd Hb), Hr. reflexivity.
 Qed.
 
 Theorem dec64_eq_iff_canon fd a b :
@@ -637,7 +661,7 @@ Proof.
   intros Hfd Ha Hb. unfold dec64_compare. split.
   - intro H. apply Z.eqb_eq in H. subst. reflexivity.
   - intro H. apply Z.eqb_eq.
-    pose proof (dec64_canon_parse fd a 0 Hfd Ha) as Pa. pose proof (dec64_canon_parse fd b 0 Hfd Hb) as Pb.
+    pose proof (dec64_canon_parse fd a Hfd Ha) as Pa. pose proof (dec64_canon_parse fd b Hfd Hb) as Pb.
     rewrite H in Pa. congruence.
 Qed.
 
@@ -648,50 +672,18 @@ Theorem dec64_sort_total_order :
   (forall a b c, dec64_sort a b = Lt -> dec64_sort b c = Lt -> dec64_sort a c = Lt).
 Proof. exact int_sort_total_order. Qed.
 
-(* ---------- the full-strength statement, with the defect inputs excluded ---------- *)
-Lemma sign_no_digit_of_core ws1 sg ft fp ws2 :
-  all_space ws1 -> all_space ws2 -> is_sign sg -> sg <> [] -> frac_part ft fp ->
-  dec64_sign_no_digit (ws1 ++ (sg ++ [] ++ ft) ++ ws2) = true.
-Proof.
-  intros Hws1 Hws2 Hsg Hne Hft. unfold dec64_sign_no_digit.
-  rewrite skip_space_app_ws by exact Hws1. cbn [app].
-  assert (Hnd : is_digit (hd 0 (ft ++ ws2)) = false).
-  { destruct Hft as [|fpa _ _]; cbn [app hd]; [|reflexivity].
-    destruct ws2 as [|w ws2']; cbn [hd]; [reflexivity|].
-    unfold all_space in Hws2. cbn [forallb] in Hws2. apply andb_true_iff in Hws2. apply space_not_digit. tauto. }
-  destruct Hsg as [-> | [-> | ->]]; [congruence| |]; cbn [app];
-    rewrite skip_space_id by reflexivity; rewrite Hnd; reflexivity.
-Qed.
-
-Theorem dec64_scale fd s n nxt :
-  (1 <= fd)%nat -> is_digit nxt = false -> dec64_sign_no_digit s = false ->
-  (dec64_parse fd s nxt = Ok n <->
+(* ---------- the full-strength statement: no side hypotheses ---------- *)
+Theorem dec64_scale fd s n :
+  (1 <= fd)%nat ->
+  (dec64_parse fd s = Ok n <->
    rfc_ws_dec64_lex fd s n /\ (I64MIN_Z <= n <= I64MAX_Z)%Z).
 Proof.
-  intros Hfd Hnxt Hdef. split.
-  - intro H. apply (dec64_parse_sound fd s n nxt Hfd Hnxt) in H. destruct H as [Hlex Hb].
-    split; [|exact Hb].
-    destruct Hlex as [ws1 core ws2 m Hws1 Hws2 Hcore].
-    apply WsAround; [exact Hws1|exact Hws2|].
-    destruct Hcore as [sg ip ft fp m Hsg Hne Hip Hft Hden].
-    destruct ip as [|d ip'].
-    + exfalso. destruct Hne as [Hne|Hne]; [congruence|].
-      rewrite (sign_no_digit_of_core ws1 sg ft fp ws2 Hws1 Hws2 Hsg Hne Hft) in Hdef. discriminate.
-    + apply RfcDec with (fp := fp); auto. discriminate.
-  - intros [Hlex Hb]. apply dec64_parse_complete; [exact Hfd|apply rfc_ws_is_ly_lex; exact Hlex|exact Hb].
-Qed.
-
-(* as coded, without exclusions *)
-Theorem dec64_scale_ascoded fd s n nxt :
-  (1 <= fd)%nat -> is_digit nxt = false ->
-  (dec64_parse fd s nxt = Ok n <-> ly_dec64_lex fd s n /\ (I64MIN_Z <= n <= I64MAX_Z)%Z).
-Proof.
-  intros Hfd Hnxt. split.
-  - apply dec64_parse_sound; assumption.
+  intros Hfd. split.
+  - apply dec64_parse_sound. exact Hfd.
   - intros [Hlex Hb]. apply dec64_parse_complete; assumption.
 Qed.
 
-(* ---------- refutations ---------- *)
+(* ---------- the former defect inputs are rejected ---------- *)
 Lemma rfc_ws_has_digit fd s n : rfc_ws_dec64_lex fd s n -> existsb is_digit s = true.
 Proof.
   intros [ws1 core ws2 m _ _ Hcore]. destruct Hcore as [sg ip ft fp m _ Hne Hip _ _].
@@ -700,74 +692,47 @@ Proof.
   rewrite !existsb_app. cbn [existsb]. rewrite Hd. cbn [orb]. rewrite !orb_true_r. reflexivity.
 Qed.
 
-(* a sign alone is stored as zero although it is not in the lexical space (RFC 7950 9.3.1 requires digits) *)
-Theorem dec64_sign_only_refuted :
-  forall fd nxt, (1 <= fd)%nat ->
-    dec64_parse fd [45] nxt = Ok 0%Z /\ dec64_parse fd [43] nxt = Ok 0%Z /\
-    (forall n, ~ rfc_ws_dec64_lex fd [45] n) /\ (forall n, ~ rfc_ws_dec64_lex fd [43] n).
-Proof.
-  intros fd nxt Hfd.
-  assert (Hc : forall sg, is_sign sg -> sg <> [] -> ly_dec64_lex fd sg 0%Z).
-  { intros sg Hsg Hne. apply ws_around_id.
-    replace sg with (sg ++ [] ++ []) at 1 by (rewrite app_nil_r; reflexivity).
-    apply LyDecCore with (fp := []); [exact Hsg|right; exact Hne|reflexivity|apply FracNone|].
-    unfold dec64_denotes. cbn. lia. }
-  split; [apply dec64_parse_complete; [exact Hfd|apply Hc; [right; right; reflexivity|discriminate]|unfold I64MIN_Z, I64MAX_Z; lia]|].
-  split; [apply dec64_parse_complete; [exact Hfd|apply Hc; [right; left; reflexivity|discriminate]|unfold I64MIN_Z, I64MAX_Z; lia]|].
-  split; intros n H; apply rfc_ws_has_digit in H; discriminate.
-Qed.
+(* after the leading white space, a sign that is not followed by a digit *)
+Definition dec64_sign_no_digit (s : bytes) : bool :=
+  match skip_space s with
+  | c :: r => ((c =? 45) || (c =? 43)) && negb (is_digit (hd 0 r))
+  | [] => false
+  end.
 
-(* the excluded inputs are all outside the RFC language, so the exclusion loses nothing of it *)
-Lemma rfc_not_defect fd s n : rfc_ws_dec64_lex fd s n -> dec64_sign_no_digit s = false.
+(* every such value ( -  +  -.5  +.5  - 1 ...) is rejected with LY_EVALID, for every fraction-digits *)
+Theorem dec64_sign_needs_digit fd s :
+  dec64_sign_no_digit s = true -> dec64_parse fd s = Err E_VALID.
 Proof.
-  intros [ws1 core ws2 m Hws1 _ Hcore]. destruct Hcore as [sg ip ft fp m Hsg Hne Hip _ _].
-  unfold dec64_sign_no_digit. rewrite skip_space_app_ws by exact Hws1.
-  destruct ip as [|d ip']; [congruence|].
-  unfold all_digit in Hip. cbn [forallb] in Hip. apply andb_true_iff in Hip. destruct Hip as [Hd _].
-  pose proof (digit_not_space d Hd) as Hns.
-  destruct Hsg as [-> | [-> | ->]]; cbn [app].
-  - rewrite skip_space_id by exact Hns. unfold is_digit in Hd.
-    destruct (d =? 45) eqn:E1; [lia|]. destruct (d =? 43) eqn:E2; [lia|]. reflexivity.
-  - rewrite skip_space_id by reflexivity. cbn [hd]. rewrite Hd. reflexivity.
-  - rewrite skip_space_id by reflexivity. cbn [hd]. rewrite Hd. reflexivity.
-Qed.
-
-(* the digits before the period may be missing after a sign *)
-Theorem dec64_no_int_digits_refuted :
-  dec64_parse 1 [45; 46; 53] 0 = Ok (-5)%Z /\ (forall n, ~ rfc_ws_dec64_lex 1 [45; 46; 53] n) /\
-  dec64_parse 1 [46; 53] 0 = Err E_VALID.
-Proof.
-  split; [reflexivity|]. split; [|reflexivity].
-  intros n H. apply rfc_not_defect in H. discriminate.
-Qed.
-
-(* the verdict on a value ending in a period depends on the byte AFTER the value *)
-Theorem dec64_overread_refuted :
-  dec64_parse 1 [49; 46] 53 = Ok 10%Z /\ dec64_parse 1 [49; 46] 0 = Err E_VALID /\
-  (forall n, (I64MIN_Z <= n <= I64MAX_Z)%Z -> ~ rfc_ws_dec64_lex 1 [49; 46] n).
-Proof.
-  split; [reflexivity|]. split; [reflexivity|].
-  intros n Hb H. apply rfc_ws_is_ly_lex in H.
-  apply (dec64_parse_complete 1 _ n 0 ltac:(lia)) in H; [|exact Hb]. discriminate.
+  unfold dec64_sign_no_digit. intro H.
+  destruct (skip_space_split s) as [ws1 [Hs Hws1]].
+  destruct (skip_space s) as [|c r] eqn:Hsk; [discriminate|].
+  apply andb_true_iff in H. destruct H as [Hc Hr].
+  assert (Hh : head_nondigit r).
+  { destruct r as [|d r']; cbn [head_nondigit]; [exact I|]. cbn [hd] in Hr. destruct (is_digit d); [discriminate|reflexivity]. }
+  rewrite Hs. change (c :: r) with ([c] ++ r).
+  apply dec64_parse_sign_nodigit; [exact Hws1| |discriminate|exact Hh].
+  unfold is_sign. destruct (c =? 45) eqn:E1; [right; right; f_equal; lia|].
+  destruct (c =? 43) eqn:E2; [right; left; f_equal; lia|discriminate].
 Qed.
 
 (* ---------- store level ---------- *)
-Lemma dec64_parse_bounds fd s nxt n :
-  dec64_parse fd s nxt = Ok n -> (I64MIN_Z <= n <= I64MAX_Z)%Z.
+Lemma dec64_parse_bounds fd s n :
+  dec64_parse fd s = Ok n -> (I64MIN_Z <= n <= I64MAX_Z)%Z.
 Proof.
   unfold dec64_parse. cbv zeta. destruct (skip_space s) as [|c0 r0]; [discriminate|].
   destruct (negb (is_digit c0) && negb (c0 =? 45) && negb (c0 =? 43)); [discriminate|].
-  destruct (dec64_scan (c0 :: r0) nxt _) as [[fraction len] tz].
+  match goal with |- (if ?b then _ else _) = _ -> _ => destruct b end; [discriminate|].
+  destruct (dec64_scan (c0 :: r0) _) as [[fraction len] tz].
   unfold dec64_finish. cbv zeta.
   destruct (negb (fraction =? 0)%nat && (fd <? len - 1 - fraction)%nat); [discriminate|].
   match goal with |- (if negb ?b then _ else _) = _ -> _ => destruct b end; cbn [negb]; [|discriminate].
   intro H. apply plg_parse_int_ok in H. tauto.
 Qed.
 
-Lemma dec64_store_inv fd parts s nxt n :
-  dec64_store fd parts s nxt = Ok n <-> dec64_parse fd s nxt = Ok n /\ validate_range parts n = true.
+Lemma dec64_store_inv fd parts s n :
+  dec64_store fd parts s = Ok n <-> dec64_parse fd s = Ok n /\ validate_range parts n = true.
 Proof.
-  unfold dec64_store. destruct (dec64_parse fd s nxt) as [m|e].
+  unfold dec64_store. destruct (dec64_parse fd s) as [m|e].
   - destruct (validate_range parts m) eqn:Hr; split.
     + intro H. inversion H; subst. auto.
     + intros [H _]. exact H.
@@ -777,22 +742,22 @@ Proof.
 Qed.
 
 (* whatever spelling was stored, its canonical string is in RFC canonical form and storing that
-   string (from any place in memory) gives the same value again *)
-Theorem dec64_canon_idempotent fd parts s nxt nxt' n :
+   string gives the same value again *)
+Theorem dec64_canon_idempotent fd parts s n :
   (1 <= fd)%nat ->
-  dec64_store fd parts s nxt = Ok n ->
-  dec64_store fd parts (dec64_canon fd n) nxt' = Ok n /\ rfc_dec64_canonical (dec64_canon fd n).
+  dec64_store fd parts s = Ok n ->
+  dec64_store fd parts (dec64_canon fd n) = Ok n /\ rfc_dec64_canonical (dec64_canon fd n).
 Proof.
   intros Hfd H. apply dec64_store_inv in H. destruct H as [Hp Hr].
   split; [|apply dec64_canon_is_rfc; exact Hfd].
-  apply dec64_canon_store; [exact Hfd|exact (dec64_parse_bounds _ _ _ _ Hp)|exact Hr].
+  apply dec64_canon_store; [exact Hfd|exact (dec64_parse_bounds _ _ _ Hp)|exact Hr].
 Qed.
 
 (* the full-strength statement for the store callback *)
-Theorem dec64_store_scale fd parts s n nxt :
-  (1 <= fd)%nat -> is_digit nxt = false -> dec64_sign_no_digit s = false ->
-  (dec64_store fd parts s nxt = Ok n <->
+Theorem dec64_store_scale fd parts s n :
+  (1 <= fd)%nat ->
+  (dec64_store fd parts s = Ok n <->
    rfc_ws_dec64_lex fd s n /\ (I64MIN_Z <= n <= I64MAX_Z)%Z /\ validate_range parts n = true).
 Proof.
-  intros Hfd Hnxt Hdef. rewrite dec64_store_inv, (dec64_scale fd s n nxt Hfd Hnxt Hdef). tauto.
+  intros Hfd. rewrite dec64_store_inv, (dec64_scale fd s n Hfd). tauto.
 Qed.
